@@ -36,7 +36,7 @@ def roundtrip(config, codec, hexbm, msg, use_default_config=False):
     if not hexbm and len(msg) % 3 == 0:
         del kw['hex_bitmap']        # likewise the binary bitmap
     if not use_default_config:
-        kw['iso_config'] = config
+        kw['iso_config'] = gen_iso.same_object(config, len(repr(msg)) + 1)
     try:
         data = iso8583.dumps(copy.deepcopy(msg), **kw)
     except Exception as ex:
